@@ -1,7 +1,24 @@
 """Property -> rules table.  Rules are functions (ctx, repo)."""
-from .rules import ndim, iface, wrappers, rng, mech, errmodels, popmodels, switch, copies
+from .rules import ndim, iface, wrappers, rng, mech, errmodels, popmodels, switch, copies, cursors, reduced
 
 PROPS = {}
+
+CUR_LL = cursors.scoped('r05_4_loglikelihood', classes=['LogLikelihood'],
+                        floor=3)
+CUR_HIER = cursors.scoped(
+    'r05_4_hierarchical',
+    classes=['HierarchicalLogLikelihood', 'HierarchicalLogPosterior',
+             'ComposedPopulationModel'], floor=10)
+CUR_FILTER = cursors.scoped(
+    'r05_4_filter_posterior',
+    classes=['PopulationFilterLogPosterior', 'ComposedPopulationFilter',
+             'ComposedPopulationModel'], floor=10)
+CUR_PRED = cursors.scoped('r05_4_predictive',
+                          files=['chi/_predictive_models.py'], floor=1)
+CUR_INIT = cursors.scoped(
+    'r05_4_initial_points',
+    classes=['HierarchicalLogPosterior', 'PopulationFilterLogPosterior'],
+    floor=3)
 
 
 def prop(pid, quick, thorough=(), undecided=(), assumptions=(),
@@ -20,8 +37,23 @@ COMMON_ASSUME = [
     'exception edges are not modelled',
 ]
 
+prop('C01',
+     [CUR_LL, switch.r03_5, errmodels.r04_terms],
+     undecided=['that the mechanistic prediction is the model value at that '
+                'time (ODE solver)', 'float equality of time points'],
+     assumptions=COMMON_ASSUME,
+     technique='cursor/partition discipline of the per-output loops, '
+               'sensitivity-switch typestate, total = sum of pointwise by '
+               'term algebra',
+     explanation='Decides that the three per-output loops of LogLikelihood '
+                 'slice the error parameters with a running cursor that is '
+                 'advanced on every path, that each simulate() is reached '
+                 'with the switch in the required state for every call '
+                 'history, and (C04 rules) that each error model\'s total '
+                 'is the sum of its pointwise values.')
+
 prop('C02',
-     [iface.r02_1, iface.r02_7, iface.r02_6, wrappers.r02_2],
+     [iface.r02_1, iface.r02_7, iface.r02_6, wrappers.r02_2, CUR_HIER],
      undecided=['numerical equality of the score with the hand-assembled sum',
                 'covariate values reaching the right individual at run time'],
      assumptions=COMMON_ASSUME,
@@ -61,7 +93,7 @@ TERM_ASSUME = COMMON_ASSUME + [
 
 prop('C03',
      [errmodels.r04_terms, popmodels.r05_2, iface.r02_7, switch.r03_5,
-      switch.r08_7],
+      switch.r08_7, CUR_LL, CUR_HIER],
      undecided=['mechanistic sensitivities (sundials)',
                 'finiteness of scores at run time'],
      assumptions=TERM_ASSUME,
@@ -76,7 +108,7 @@ prop('C03',
                  'sensitivities is that score.')
 
 prop('C05',
-     [ndim.r05_1, popmodels.r05_2],
+     [ndim.r05_1, popmodels.r05_2, cursors.r05_4],
      undecided=['numerical values at boundary points', '-inf vs nan'],
      assumptions=TERM_ASSUME,
      technique='AST rule over rank-dispatch chains + term algebra on the '
@@ -105,6 +137,23 @@ prop('C06',
                  'affine noise structure of `sample` equal those recognised '
                  'from the density; scipy truncation bounds are standardised '
                  'correctly; reported moments equal the closed-form moments.')
+
+prop('C08',
+     [reduced.r08_1, reduced.r08_2, reduced.r08_3, reduced.r08_4,
+      switch.r08_7, wrappers.r02_2, iface.r02_7, copies.r19_3],
+     undecided=['value equality of evaluations', 'nan in released slots'],
+     assumptions=COMMON_ASSUME,
+     technique='def-use provenance of the parameter vector through the '
+               'Reduced* wrappers (FREE/FULL lattice, path-split on the '
+               'mask), sibling comparison of fix_parameters, typestate of '
+               'the sensitivity request, stale-cache fixpoint',
+     explanation='Decides that each Reduced* wrapper substitutes the fixed '
+                 'values with `~mask` before it delegates and filters the '
+                 'returned gradients with the same mask; that the three '
+                 'fix_parameters implementations only update (mask, values) '
+                 'per name, release on None and collapse to None, so the '
+                 'state is a function of the name-value set; that a change '
+                 'of the free set re-requests enabled sensitivities.')
 
 prop('C11',
      [mech.r11_1, mech.r11_2, mech.r11_5, copies.r11_3, copies.r11_6,
